@@ -88,22 +88,24 @@ Fixpoint trt (ret : bool) (k : Z) (D : list ident) (ps : list pstmt) : list cnod
       end
   end.
 
-(* body level of `while True:` (loop()): a first assignment declares a local, in place *)
-Fixpoint trl (ret : bool) (k : Z) (D : list ident) (ps : list pstmt) : list cnode :=
+(* body level of `while True:` (loop()): a first assignment declares a GLOBAL with the type's default value and
+   stays in place as an assignment (it runs on every pass; the variable keeps its value between passes) *)
+Fixpoint trl (ret : bool) (k : Z) (D : list ident) (ps : list pstmt) : list cnode * list gdecl :=
   match ps with
-  | [] => []
+  | [] => ([], [])
   | p :: r =>
       match p with
       | PAssign x e =>
-          if tmem x D then tr1 ret k p ++ trl ret k D r
-          else NDecl x (a_ty e) (XE (a_id e)) false :: trl ret k (D ++ [x]) r
-      | _ => tr1 ret k p ++ trl ret (knext k p) D r
+          if tmem x D then (tr1 ret k p ++ fst (trl ret k D r), snd (trl ret k D r))
+          else (NAssign x (XE (a_id e)) :: fst (trl ret k (D ++ [x]) r),
+                {| g_name := x; g_ty := a_ty e; g_init := XDefault (a_ty e) |} :: snd (trl ret k (D ++ [x]) r))
+      | _ => (tr1 ret k p ++ fst (trl ret (knext k p) D r), snd (trl ret (knext k p) D r))
       end
   end.
 
-(* [top] = the statement list may declare; [lm] = it is the main-loop body (declarations are locals) *)
+(* [top] = the statement list may declare; [lm] = it is the main-loop body (no static initialisers) *)
 Definition trm (ret : bool) (k : Z) (top lm : bool) (D : tenv) (ps : list pstmt) : list cnode * list gdecl :=
-  if top then (if lm then (trl ret k (map fst D) ps, []) else trt ret k (map fst D) ps) else (trn ret k ps, []).
+  if top then (if lm then trl ret k (map fst D) ps else trt ret k (map fst D) ps) else (trn ret k ps, []).
 
 (* the C outcome that corresponds to a Python outcome: a `continue` at the level of the main loop is `return;` *)
 Definition oc (ret : bool) (o : outcome) : outcome :=
